@@ -309,9 +309,10 @@ func genC11(r *rand.Rand, tier string) []Case {
 }
 
 type c11Any struct {
-	M *c11Case  `json:"merger,omitempty"`
-	T *c11Tbl   `json:"tables,omitempty"`
-	F *c11Flush `json:"flush,omitempty"`
+	M *c11Case    `json:"merger,omitempty"`
+	T *c11Tbl     `json:"tables,omitempty"`
+	F *c11Flush   `json:"flush,omitempty"`
+	C *c11Compact `json:"compaction,omitempty"`
 }
 
 func (c *c11Any) inner() Case {
@@ -320,6 +321,8 @@ func (c *c11Any) inner() Case {
 		return c.M
 	case c.T != nil:
 		return c.T
+	case c.C != nil:
+		return c.C
 	}
 	return c.F
 }
@@ -377,6 +380,18 @@ func genC11All(r *rand.Rand, tier string) []Case {
 		}
 		out = append(out, &c11Any{F: f})
 	}
+	// compaction cycles under a file size limit, then a restart
+	nc := 1
+	if tier == "thorough" {
+		nc = 6
+	}
+	for i := 0; i < nc; i++ {
+		c := &c11Compact{NTables: 2 + r.Intn(3), ValLen: 3000 + r.Intn(6000)}
+		for _, lim := range []int{0, 8, 100, 2000, 4096, 4200, 9000, 20000, 60000} {
+			c.Limits = append(c.Limits, lim+r.Intn(50))
+		}
+		out = append(out, &c11Any{C: c})
+	}
 	return out
 }
 
@@ -392,6 +407,9 @@ func init() {
 func (c *c11Any) Evals() int {
 	if c.F != nil {
 		return c.F.Evals()
+	}
+	if c.C != nil {
+		return c.C.Evals()
 	}
 	return 1
 }
